@@ -7,6 +7,21 @@ C02 — A rejected assignment has no observable effect.
    for references (a Parameter, bound function or reactive expression handed to an `allow_refs`
    parameter) whose current value is invalid for the target."
 
+What the theorems are about.  The setter of the model (`setCore`) is proved equal to a *statement
+machine* (`setStaged … codeOrder`, Refs/Model.lean) that executes `validate; guard; store; relink` one
+after the other on a world that is NOT rolled back when a statement raises.  C02 for the instance
+route is therefore a statement about the ORDER: `checks_before_effects_leave_no_trace` holds for every
+order that runs all checks before the first effect, and `relink_before_validate_leaves_a_trace` shows
+that the order of the code before fix a2a2c2a (link change first) violates it.  Whether the *code*
+has the order of the model is established by correspondence (harness twin runs), not by proof.
+
+The `update` route is weaker than the English sentence: the keys before the rejected one ARE applied
+(`C02_full_update_refuted`); the theorem that holds says the rejected key itself contributes nothing.
+
+Not in the model world, oracle only (harness `aux` / `own`): Event parameter modes, the `syncing` set,
+`constant` flags, generators shared between parameters, Parameter copies in subclasses, user watchers
+other than the universal logging one.
+
 Model: Refs/Model.lean — `Parameter.__set__` as written after fix a2a2c2a (reference resolution,
 *deferred* relink, `_validate`, constant/readonly guard, store, `relink()`), `_update`, the class
 route.  A `World` holds *everything* the model knows: all source values, all target values and
@@ -117,6 +132,68 @@ theorem rejected_then_any_history (c : Cfg) (op : Op) (w w' : World) (e : Err) (
     · exact (rejected_no_effect_class c t p rhs w w' e log h).1
   simp [runOps, h, hw]
 
+/-- **C02, it is the order.**  Run the statements of the setter in ANY order in which every check
+(`validate`, `guard`) comes before every effect (`store`, `relink`), on a world that is not rolled back:
+if a statement raises, the world is the world before the assignment. -/
+theorem checks_before_effects_leave_no_trace (c : Cfg) (a : SetArgs) (checks effects : List Stage) (w w' : World)
+    (e : Err) (evs : List (Nat × Val))
+    (hc : ∀ st ∈ checks, st.isCheck = true) (he : ∀ st ∈ effects, st.isCheck = false)
+    (h : setStaged c a (checks ++ effects) w = (.raised e, w', evs)) : w' = w ∧ evs = [] := by
+  unfold setStaged at h
+  cases hr : runStages c a (checks ++ effects) (w, true) with
+  | ok s => rw [hr] at h; simp at h
+  | error x =>
+    obtain ⟨e0, w0⟩ := x
+    rw [hr] at h
+    simp at h
+    obtain ⟨_, hw, hev⟩ := h
+    subst hw
+    exact ⟨runStages_checks_first checks effects w true e0 w0 hc he hr, hev⟩
+
+/-- … the model's setter is that machine in the order of the code (`validate; guard; store; relink`),
+so a rejected `setCore` leaves no trace *because of that order*. -/
+theorem setter_runs_checks_first (c : Cfg) (t p : Nat) (d : PDecl) (old v : Val) (rl : Relink) (ec : Bool) (w w' : World)
+    (e : Err) (evs : List (Nat × Val)) (h : setCore c t p d old (some v) rl ec w = (.raised e, w', evs)) :
+    w' = w ∧ evs = [] := by
+  rw [setCore_is_code_order] at h
+  exact checks_before_effects_leave_no_trace c _ [.validate, .guard] [.store, .relink] w w' e evs
+    (by decide) (by decide) h
+
+/-- the `update` route read literally ("exactly as before") -/
+def C02_full_update : Prop :=
+  ∀ (c : Cfg) (t : Nat) (kvs : List (Nat × Rhs)) (w w' : World) (e : Err) (log : List Entry),
+    update c t kvs w = (.raised e, w', log) → w' = w ∧ log = []
+
+/-- **C02, rejected `with update(...)` exit.**  When restoring an `update` context is rejected, the
+context is closed all the same and the restore behaves like any rejected `update`
+(`rejected_no_effect_update` applies to it). -/
+theorem rejected_ctx_exit (c : Cfg) (w w' : World) (e : Err) (log : List Entry) (hne : e ≠ .noCtx)
+    (h : step c .ctxExit w = (.raised e, w', log)) :
+    ∃ r rest, w.stack = r :: rest ∧ update c r.t r.kvs { w with stack := rest } = (.raised e, w', log) := by
+  have h' : ctxExit c w = (.raised e, w', log) := by simpa [step, Op.supported] using h
+  unfold ctxExit at h'
+  split at h'
+  · simp at h'; exact absurd h'.1.symm hne
+  · rename_i r rest hst
+    exact ⟨r, rest, hst, h'⟩
+
+/-- **C02, a source update whose write into a linked parameter is rejected** (the rejected
+assignment happens inside `_sync_refs`; the assignment to the source itself succeeded).  Whatever the
+outcome: no watcher, no link, no class default and no open context changes; other sources keep their
+values; of the target values only those whose link depends on the updated source parameter may
+change. -/
+theorem failed_source_update_frame (c : Cfg) (s i : Nat) (v : Int) (w w' : World) (res : Res) (log : List Entry)
+    (hnd : ∀ (t : Nat) (tg : Target), w.tgts[t]? = some tg → keysNodup tg.refs)
+    (h : step c (.srcSet s i v) w = (res, w', log)) :
+    w'.watch = w.watch ∧ w'.stack = w.stack ∧ w'.tgts.length = w.tgts.length ∧
+    (∀ d, d ≠ (s, i) → readSrc w' d = readSrc w d) ∧
+    ∀ (t : Nat) (tg : Target), w.tgts[t]? = some tg →
+      ∃ vals', w'.tgts[t]? = some { tg with vals := vals' } ∧
+        (∀ (q : Nat), ¬ dependent c t (s, i) tg.refs q → vals'[q]? = tg.vals[q]?) :=
+  have h' : srcSet c s i v w = (res, w', log) := by simpa [step, Op.supported] using h
+  let ⟨h1, h2, h3, h4, h5⟩ := srcSet_frame hnd h'
+  ⟨h1, h2, h3, h4, fun t tg ht => let ⟨vals', a, b, _⟩ := h5 t tg ht; ⟨vals', a, b⟩⟩
+
 /-! ### the hypotheses are satisfiable: a linked, bounded parameter and the three kinds of rejection -/
 
 namespace Example
@@ -139,6 +216,21 @@ example : step c (.set 0 1 (.atom (.par 0 0))) w0 ≠ (.ok, w0, []) ∧
     (step c (.set 0 1 (.atom (.fn [(0, 0)] 4 false none))) w0).1 = .raised .type_ := by decide
 /-- `update`: the first key is applied, the second rejected -/
 example : (update c 0 [(0, .atom (.lit 3)), (1, .atom (.lit 7))] w0).1 = .raised .type_ := by decide
+
+/-- the literal reading of the `update` route is false: the key before the rejected one was applied -/
+theorem C02_full_update_refuted : ¬ C02_full_update := by
+  intro h
+  have := (h c 0 [(0, .atom (.lit 3)), (1, .atom (.lit 7))] w0 _ _ _
+    (rfl : update c 0 [(0, .atom (.lit 3)), (1, .atom (.lit 7))] w0 =
+      (_, (update c 0 [(0, .atom (.lit 3)), (1, .atom (.lit 7))] w0).2.1, (update c 0 [(0, .atom (.lit 3)), (1, .atom (.lit 7))] w0).2.2)))
+  revert this; decide
+
+/-- the order before fix a2a2c2a (link change first) leaves a trace: the rejected reference to S1 has
+already replaced the link to S0 when `_validate` raises -/
+theorem relink_before_validate_leaves_a_trace :
+    ∃ (a : SetArgs) (e : Err) (w' : World), setStaged c a preFixOrder w0 = (.raised e, w', []) ∧ w' ≠ w0 :=
+  ⟨{ t := 0, p := 0, d := { kind := .int, lo := some 0, hi := some 10, constant := false, readonly := false, allowRefs := true, nestedRefs := false },
+     old := .int 1, v := .int 99, rl := .link (.atom (.par 1 0)), editConst := false }, .value, _, rfl, by decide⟩
 
 end Example
 
